@@ -164,7 +164,6 @@ async def worker_serve(
 
         for server in servers:
             server.close()
-            await server.wait_closed()
 
         try:
             gathered_server_tasks = asyncio.gather(*server_tasks)
@@ -175,6 +174,12 @@ async def worker_serve(
             # Retrieve the Gathered Tasks Cancelled Exception, to
             # prevent a warning that this hasn't been done.
             gathered_server_tasks.exception()
+
+            # From Python 3.12 wait_closed waits for every connection
+            # to finish, hence only wait once the graceful timeout
+            # has been applied to the connections.
+            for server in servers:
+                await server.wait_closed()
 
             await lifespan.wait_for_shutdown()
             lifespan_task.cancel()
